@@ -24,6 +24,10 @@ class Opaque(AnalysisError):
     """An obligation met a construct outside the vocabulary where it needed semantics."""
 
 
+class WouldRaise(Opaque):
+    """the fragment, evaluated on the abstract inputs, certainly raises (KeyError on a literal dict, index out of range)"""
+
+
 class _Raise(Exception):
     def __init__(self, node):
         self.node = node
@@ -31,6 +35,11 @@ class _Raise(Exception):
 
 class PathLimit(AnalysisError):
     pass
+
+
+class _Break(Exception):
+    def __init__(self, path):
+        self.path = path
 
 
 def S(x):
@@ -406,12 +415,12 @@ class SymEval:
         g = self.resolve_global(n)
         if g in NP_FUNCS:
             return NP_FUNCS[g]
-        if n.id in ('range', 'len', 'int', 'float', 'abs', 'sum', 'min', 'max', 'list', 'tuple', 'isinstance', 'complex', 'round', 'zip', 'enumerate'):
+        if n.id in ('range', 'len', 'int', 'float', 'abs', 'sum', 'min', 'max', 'list', 'tuple', 'isinstance', 'complex', 'round', 'zip', 'enumerate', 'str'):
             return {'range': lambda *a: list(range(*[int(x) for x in a])), 'len': len, 'int': lambda x: x, 'float': lambda x: x,
                     'abs': lambda x: sp.Abs(x), 'sum': lambda x: sum(x), 'min': lambda *a: sp.Min(*(a[0] if len(a) == 1 else a)),
                     'max': lambda *a: sp.Max(*(a[0] if len(a) == 1 else a)), 'list': list, 'tuple': tuple,
                     'isinstance': lambda *a: Opaque, 'complex': lambda a, b=0: a + sp.I * b, 'round': lambda x, n=0: x,
-                    'zip': lambda *a: list(zip(*a)), 'enumerate': lambda a: list(enumerate(a))}[n.id]
+                    'zip': lambda *a: list(zip(*a)), 'enumerate': lambda a: list(enumerate(a)), 'str': str}[n.id]
         raise Opaque('unbound name %s' % n.id)
 
     def e_UnaryOp(self, n, p):
@@ -549,7 +558,8 @@ class SymEval:
         raise Opaque('loop over non-literal iterable ' + norm(node))
 
     def e_Attribute(self, n, p):
-        g = self.resolve_global(n)
+        d = self.dotted(n)
+        g = None if (d and d[0] in p.env) else self.resolve_global(n)
         if g is not None:
             if g in NP_CONSTS:
                 return NP_CONSTS[g]
@@ -608,8 +618,10 @@ class SymEval:
                 return lambda k, d=None: base.get(k, d)
             if attr == 'keys':
                 return lambda: list(base.keys())
-        if isinstance(base, list) and attr == 'append':
-            return base.append
+        if isinstance(base, list) and attr in ('append', 'index', 'pop', 'insert', 'extend', 'count', 'copy'):
+            return getattr(base, attr)
+        if isinstance(base, str) and attr in ('strip', 'split', 'lower', 'upper', 'startswith', 'endswith', 'isalpha', 'isdigit'):
+            return getattr(base, attr)
         raise Opaque('attribute .%s of %s in %s' % (attr, type(base).__name__, norm(n)))
 
     def e_Subscript(self, n, p):
@@ -617,6 +629,8 @@ class SymEval:
         idx = self.index(n.slice, p)
         try:
             if isinstance(base, dict):
+                if idx not in base:
+                    raise WouldRaise('KeyError: %s in %s' % (idx, norm(n)))
                 return base[idx]
             if isinstance(base, (list, tuple)):
                 return base[int(idx)] if not isinstance(idx, slice) else base[idx]
@@ -879,6 +893,7 @@ class SymEval:
     def s_For(self, s, p):
         it = self.ev(s.iter, p)
         paths = [p]
+        broke = []
         for v in self.iterate(it, s.iter):
             nxt = []
             for q in paths:
@@ -886,11 +901,44 @@ class SymEval:
                     nxt.append(q)
                     continue
                 self.assign(s.target, v, q)
-                nxt.extend(self.block(s.body, [q]))
+                try:
+                    nxt.extend(self.block(s.body, [q]))
+                except _Break as b:
+                    b.path.done = None
+                    broke.append(b.path)
             paths = nxt
             if len(paths) > self.MAX_PATHS:
                 raise PathLimit('loop forks too many paths')
-        return paths
+        return paths + broke
+
+    MAX_ITER = 400
+
+    def s_While(self, s, p):
+        paths = [p]
+        done = []
+        for it in range(self.MAX_ITER):
+            nxt = []
+            for q in paths:
+                if q.done is not None:
+                    done.append(q)
+                    continue
+                t = self.truth(self.ev(s.test, q), s.test, q)
+                if t is None:
+                    raise Opaque('undecided loop condition ' + norm(s.test))
+                if not t:
+                    done.append(q)
+                    continue
+                try:
+                    nxt.extend(self.block(s.body, [q]))
+                except _Break as b:
+                    done.append(b.path)
+            paths = nxt
+            if not paths:
+                return done
+        raise PathLimit('while loop does not terminate within %d iterations' % self.MAX_ITER)
+
+    def s_Break(self, s, p):
+        raise _Break(p)
 
     def s_Try(self, s, p):
         # only the try/else/finally bodies on the non-raising path
